@@ -24,6 +24,7 @@ RULE = ("case = one word over (code in {null,0,1,2}) x (value null / distinct no
         "composition into 2..4 chunked value blocks) x the mask kind of the sub-space; non-trivial "
         "= at least 2 rows and (>=2 groups present or a null code/value or a rejected row)")
 ASSUMPTIONS = [
+    'slice masks (plain and stepped) also on chunked value lists of every composition',
     'footprint sub-spaces (write-write conflicts between the per-block task bodies) for boolean / no / positional masks and every split',
     "values outside the position table (signed powers of two) are not explored",
     "n <= 5 rows (quick) / 6 rows (thorough); G <= 3 groups; <= 4 blocks",
